@@ -43,12 +43,21 @@ type NodeV struct {
 	IType, Init, Reg bool
 	CPU, Mem         int64 // milli-cpu, Mi; 0 = key absent
 	Deleting         bool
+	InitFalse        bool   // initialized label present with value "false" (UpdateNode reads != "", Initialized() == "true")
+	RegFalse         bool   // registered label "false"
+	ACPU, AMem       int64  // status.allocatable (0: same as capacity)
+	Hostname         string // kubernetes.io/hostname label
+	Taints           []string
+	DoNotDisrupt     bool
 }
 
 type ClaimV struct {
 	Name, PID, Pool string
 	CPU, Mem        int64
 	Deleting        bool
+	Term            bool // condition InstanceTerminating=True
+	Unmanaged       bool // nodeClassRef of a kind the cloud provider does not support: the informer must ignore it
+	Taints, Startup []string
 }
 
 type PodV struct {
@@ -62,6 +71,12 @@ type PodV struct {
 	Ports      []string // "ip:port:proto" specs, port 0 allowed (skipped by the code)
 	Vols       []string // pvc names or "empty"
 	AntiAff    bool
+	Failed     bool   // terminal pods: phase Failed instead of Succeeded
+	Owner      string // "" | "ReplicaSet" | "Node" (DS = DaemonSet owner)
+	BadCost    bool   // unparsable pod-deletion-cost annotation
+	Init       bool   // an init container with larger requests
+	Overhead   bool
+	Ephemeral  bool // a generic ephemeral volume (PVC <pod>-eph)
 	// derived by the real helper functions when the pod is written to the API
 	Cost                           int64    // EvictionCost * 2^27
 	PortsRes                       []string // scheduling.GetHostPorts
@@ -116,7 +131,26 @@ func newWorld() *world {
 		p.Spec.VolumeName = vol
 		return p
 	}
-	for _, o := range []client.Object{sc1, sc2, pv, mk("pvc-a", "sc1", ""), mk("pvc-b", "sc1", ""), mk("pvc-c", "sc2", ""), mk("pvc-d", "", "pv-d"), mk("pvc-e", "", "")} {
+	// more ways a volume resolves: in-tree provisioner name, missing class, bound to a non-CSI / in-tree EBS volume,
+	// generic ephemeral volumes (<pod>-eph), more claims on drv1 (several pods sharing one driver)
+	scIn := &storagev1.StorageClass{ObjectMeta: metav1.ObjectMeta{Name: "sc-intree"}, Provisioner: "kubernetes.io/aws-ebs"}
+	pvHost := &corev1.PersistentVolume{ObjectMeta: metav1.ObjectMeta{Name: "pv-host"}, Spec: corev1.PersistentVolumeSpec{
+		PersistentVolumeSource: corev1.PersistentVolumeSource{HostPath: &corev1.HostPathVolumeSource{Path: "/x"}}}}
+	pvEBS := &corev1.PersistentVolume{ObjectMeta: metav1.ObjectMeta{Name: "pv-ebs"}, Spec: corev1.PersistentVolumeSpec{
+		PersistentVolumeSource: corev1.PersistentVolumeSource{AWSElasticBlockStore: &corev1.AWSElasticBlockStoreVolumeSource{VolumeID: "v"}}}}
+	extra := []client.Object{scIn, pvHost, pvEBS, mk("pvc-f", "sc1", ""), mk("pvc-g", "sc1", ""), mk("pvc-h", "sc-intree", ""),
+		mk("pvc-i", "sc-missing", ""), mk("pvc-j", "", "pv-host"), mk("pvc-k", "", "pv-ebs")}
+	for i := 0; i < 6; i++ {
+		extra = append(extra, mk(fmt.Sprintf("p%d-eph", i), "sc2", ""))
+	}
+	// CSINode volume limits, read by UpdateNode (populateVolumeLimits)
+	two, one := int32(2), int32(1)
+	extra = append(extra,
+		&storagev1.CSINode{ObjectMeta: metav1.ObjectMeta{Name: "n0"}, Spec: storagev1.CSINodeSpec{Drivers: []storagev1.CSINodeDriver{
+			{Name: "drv1", NodeID: "n0", Allocatable: &storagev1.VolumeNodeResources{Count: &two}}, {Name: "drv9", NodeID: "n0"}}}},
+		&storagev1.CSINode{ObjectMeta: metav1.ObjectMeta{Name: "n1"}, Spec: storagev1.CSINodeSpec{Drivers: []storagev1.CSINodeDriver{
+			{Name: "drv1", NodeID: "n1", Allocatable: &storagev1.VolumeNodeResources{Count: &one}}, {Name: "drv2", NodeID: "n1", Allocatable: &storagev1.VolumeNodeResources{}}}}})
+	for _, o := range append([]client.Object{sc1, sc2, pv, mk("pvc-a", "sc1", ""), mk("pvc-b", "sc1", ""), mk("pvc-c", "sc2", ""), mk("pvc-d", "", "pv-d"), mk("pvc-e", "", "")}, extra...) {
 		if err := w.c.Create(w.ctx, o); err != nil {
 			panic(err)
 		}
@@ -153,14 +187,37 @@ func (w *world) buildNode(v *NodeV) *corev1.Node {
 	}
 	if v.Init {
 		n.Labels[v1.NodeInitializedLabelKey] = "true"
+	} else if v.InitFalse {
+		n.Labels[v1.NodeInitializedLabelKey] = "false"
 	}
 	if v.Reg {
 		n.Labels[v1.NodeRegisteredLabelKey] = "true"
+	} else if v.RegFalse {
+		n.Labels[v1.NodeRegisteredLabelKey] = "false"
+	}
+	if v.Hostname != "" {
+		n.Labels[corev1.LabelHostname] = v.Hostname
+	}
+	if v.DoNotDisrupt {
+		n.Annotations = map[string]string{v1.DoNotDisruptAnnotationKey: "true"}
 	}
 	n.Spec.ProviderID = v.PID
+	n.Spec.Taints = taints(v.Taints)
 	n.Status.Capacity = rl(v.CPU, v.Mem)
 	n.Status.Allocatable = rl(v.CPU, v.Mem)
+	if v.ACPU != 0 || v.AMem != 0 {
+		n.Status.Allocatable = rl(v.ACPU, v.AMem)
+	}
 	return n
+}
+
+func taints(ts []string) []corev1.Taint {
+	var out []corev1.Taint
+	for _, t := range ts {
+		f := strings.Split(t, ":")
+		out = append(out, corev1.Taint{Key: f[0], Effect: corev1.TaintEffect(f[1])})
+	}
+	return out
 }
 
 func (w *world) buildClaim(v *ClaimV) *v1.NodeClaim {
@@ -170,6 +227,13 @@ func (w *world) buildClaim(v *ClaimV) *v1.NodeClaim {
 		nc.Labels[v1.NodePoolLabelKey] = v.Pool
 	}
 	nc.Spec.NodeClassRef = &v1.NodeClassReference{Group: object.GVK(nodeClass).Group, Kind: object.GVK(nodeClass).Kind, Name: "default"}
+	if v.Unmanaged {
+		nc.Spec.NodeClassRef = &v1.NodeClassReference{Group: "other.example.com", Kind: "OtherNodeClass", Name: "default"}
+	}
+	nc.Spec.Taints, nc.Spec.StartupTaints = taints(v.Taints), taints(v.Startup)
+	if v.Term {
+		nc.StatusConditions().SetTrue(v1.ConditionTypeInstanceTerminating)
+	}
 	nc.Status.ProviderID = v.PID
 	nc.Status.Capacity = rl(v.CPU, v.Mem)
 	nc.Status.Allocatable = rl(v.CPU, v.Mem)
@@ -187,9 +251,16 @@ func (w *world) buildPod(v *PodV) *corev1.Pod {
 	p := &corev1.Pod{ObjectMeta: metav1.ObjectMeta{Name: v.Name, Namespace: ns, Annotations: map[string]string{}}}
 	if v.DS {
 		p.OwnerReferences = []metav1.OwnerReference{{APIVersion: "apps/v1", Kind: "DaemonSet", Name: "ds", UID: "ds-uid"}}
+	} else if v.Owner == "ReplicaSet" {
+		p.OwnerReferences = []metav1.OwnerReference{{APIVersion: "apps/v1", Kind: "ReplicaSet", Name: "rs", UID: "rs-uid"}}
+	} else if v.Owner == "Node" {
+		p.OwnerReferences = []metav1.OwnerReference{{APIVersion: "v1", Kind: "Node", Name: "n0", UID: "n-uid"}}
 	}
 	if v.DelCost != nil {
 		p.Annotations[corev1.PodDeletionCost] = fmt.Sprint(*v.DelCost)
+	}
+	if v.BadCost {
+		p.Annotations[corev1.PodDeletionCost] = "not-a-number"
 	}
 	p.Spec.Priority = v.Prio
 	p.Spec.NodeName = v.Node
@@ -198,6 +269,15 @@ func (w *world) buildPod(v *PodV) *corev1.Pod {
 		ctr.Ports = append(ctr.Ports, parsePort(ps))
 	}
 	p.Spec.Containers = []corev1.Container{ctr}
+	if v.Init {
+		p.Spec.InitContainers = []corev1.Container{{Name: "i", Image: "img", Resources: corev1.ResourceRequirements{Requests: rl(v.CPU+500, v.Mem), Limits: rl(v.LCPU+500, v.LMem)}}}
+	}
+	if v.Overhead {
+		p.Spec.Overhead = rl(10, 16)
+	}
+	if v.Ephemeral {
+		p.Spec.Volumes = append(p.Spec.Volumes, corev1.Volume{Name: "eph", VolumeSource: corev1.VolumeSource{Ephemeral: &corev1.EphemeralVolumeSource{}}})
+	}
 	for i, vol := range v.Vols {
 		pv := corev1.Volume{Name: fmt.Sprintf("v%d", i)}
 		if vol == "empty" {
@@ -211,7 +291,9 @@ func (w *world) buildPod(v *PodV) *corev1.Pod {
 		p.Spec.Affinity = &corev1.Affinity{PodAntiAffinity: &corev1.PodAntiAffinity{RequiredDuringSchedulingIgnoredDuringExecution: []corev1.PodAffinityTerm{{
 			TopologyKey: corev1.LabelHostname, LabelSelector: &metav1.LabelSelector{MatchLabels: map[string]string{"app": "x"}}}}}}
 	}
-	if v.Terminal {
+	if v.Terminal && v.Failed {
+		p.Status.Phase = corev1.PodFailed
+	} else if v.Terminal {
 		p.Status.Phase = corev1.PodSucceeded
 	} else {
 		p.Status.Phase = corev1.PodRunning
@@ -254,7 +336,7 @@ func (w *world) setNode(v *NodeV) {
 	if err != nil {
 		must(w.c.Create(w.ctx, want))
 	} else {
-		cur.Labels, cur.Spec.ProviderID = want.Labels, want.Spec.ProviderID
+		cur.Labels, cur.Spec.ProviderID, cur.Spec.Taints, cur.Annotations = want.Labels, want.Spec.ProviderID, want.Spec.Taints, want.Annotations
 		must(w.c.Update(w.ctx, cur))
 	}
 	must(w.c.Get(w.ctx, client.ObjectKey{Name: v.Name}, cur))
@@ -280,11 +362,11 @@ func (w *world) setClaim(v *ClaimV) {
 	if err != nil {
 		must(w.c.Create(w.ctx, want))
 	} else {
-		cur.Labels = want.Labels
+		cur.Labels, cur.Spec.Taints, cur.Spec.StartupTaints = want.Labels, want.Spec.Taints, want.Spec.StartupTaints
 		must(w.c.Update(w.ctx, cur))
 	}
 	must(w.c.Get(w.ctx, client.ObjectKey{Name: v.Name}, cur))
-	cur.Status.ProviderID, cur.Status.Capacity, cur.Status.Allocatable = want.Status.ProviderID, want.Status.Capacity, want.Status.Allocatable
+	cur.Status.ProviderID, cur.Status.Capacity, cur.Status.Allocatable, cur.Status.Conditions = want.Status.ProviderID, want.Status.Capacity, want.Status.Allocatable, want.Status.Conditions
 	must(w.c.Status().Update(w.ctx, cur))
 	if v.Deleting {
 		must(w.c.Get(w.ctx, client.ObjectKey{Name: v.Name}, cur))
@@ -341,10 +423,17 @@ func (w *world) apply(o Op) {
 		delete(w.pods, o.Name)
 	case "DeliverNode":
 		_, _ = w.nodeCtl.Reconcile(w.ctx, reconcile.Request{NamespacedName: types.NamespacedName{Name: o.Name}})
-	case "DeliverClaim":
+	case "DeliverClaim", "DeliverForeignClaim":
 		_, _ = w.claimCtl.Reconcile(w.ctx, reconcile.Request{NamespacedName: types.NamespacedName{Name: o.Name}})
 	case "DeliverPod":
 		_, _ = w.podCtl.Reconcile(w.ctx, reconcile.Request{NamespacedName: types.NamespacedName{Name: o.Name, Namespace: ns}})
+	case "Nominate":
+		w.cluster.NominateNodeForPod(w.ctx, o.Name)
+	case "SetForeignClaim":
+		w.setClaim(o.Claim)
+		delete(w.claims, o.Claim.Name) // the model never hears of it
+	case "DelForeignClaim":
+		w.hardDelete(&v1.NodeClaim{ObjectMeta: metav1.ObjectMeta{Name: o.Name}})
 	case "Mark":
 		w.cluster.MarkForDeletion(o.IDs...)
 	case "Unmark":
